@@ -29,6 +29,15 @@ def handleRatio : Handler
   | [c, cf, prin, fees, dcf, price, L, _, cr, gU, gL, k1, k2] =>
     match int? c, nat? cf, int? prin, int? fees, nat? dcf, int? price, int? L, bool? gU, bool? gL, int? k1, int? k2 with
     | some c, some cf, some prin, some fees, some dcf, some price, some L, some gU, some gL, some k1, some k2 =>
+      -- predicates on the implementation's own numbers
+      let pred := match int? cr with
+        | some icr =>
+          if gU && icr < L then predfail "C05_user_gate" "accepted-below-ratio"
+          else if gL && icr ≥ L then predfail "C05_keeper_sound" (gapTag icr L price)
+          else if k1 != k2 then predfail "C04_ratio_index_exact" "helper-and-bulk-ratio-differ"
+          else "ok"
+        | none => "ok"
+      if pred != "ok" then pred else
       let m := collRatio c cf prin fees dcf ⟨price⟩
       let ms := match m with | some r => toString r.m | none => "panic"
       if ms != cr then mismatch "collateralizationRatio" ms cr
@@ -41,17 +50,9 @@ def handleRatio : Handler
         match m with
         | none => "ok"
         | some r =>
-          -- model gates
           if gU != decide (¬ r.m < L) then mismatch "userGate" (showBool (decide (¬ r.m < L))) (showBool gU)
           else if gL != decide (r.m < L) then mismatch "keeperGate" (showBool (decide (r.m < L))) (showBool gL)
-          -- predicates on the implementation's own numbers
-          else match int? cr with
-            | some icr =>
-              if gU && icr < L then predfail "C05_user_gate" "accepted-below-ratio"
-              else if gL && icr ≥ L then predfail "C05_keeper_sound" (gapTag icr L price)
-              else if k1 != k2 then predfail "C04_ratio_index_exact" "helper-and-bulk-ratio-differ"
-              else "ok"
-            | none => "ok"
+          else "ok"
     | _, _, _, _, _, _, _, _, _, _, _ => badInput "parse"
   | _ => badInput "arity"
 
@@ -59,14 +60,15 @@ def handleBlock : Handler
   | [c, cf, debt, dcf, price, L, _, seized] =>
     match int? c, nat? cf, int? debt, nat? dcf, int? price, int? L, bool? seized with
     | some c, some cf, some debt, some dcf, some price, some L, some seized =>
+      let pred := if seized then
+          match collRatio c cf debt 0 dcf ⟨price⟩ with
+          | some r => if r.m ≥ L then predfail "C05_block_sound" (gapTag r.m L price) else "ok"
+          | none => "ok"
+        else "ok"
+      if pred != "ok" then pred else
       let key := sortKey (c2d c cf debt dcf)
       let m := blockSelects key ⟨price⟩ ⟨L⟩
-      if m != seized then mismatch "blockSelects" (showBool m) (showBool seized)
-      else if seized then
-        match collRatio c cf debt 0 dcf ⟨price⟩ with
-        | some r => if r.m ≥ L then predfail "C05_block_sound" (gapTag r.m L price) else "ok"
-        | none => "ok"
-      else "ok"
+      if m != seized then mismatch "blockSelects" (showBool m) (showBool seized) else "ok"
     | _, _, _, _, _, _, _ => badInput "parse"
   | _ => badInput "arity"
 
@@ -206,17 +208,18 @@ def handleOp : Handler
       match runOp u kind args (stOf pre) with
       | none => badInput "op"
       | some res =>
-        let cls := resClass res
-        if cls != result then mismatch "result" cls result
-        else
-          let cmp := match res with
-            | .ok s' => cmpObs (obsOf u s') post
-            | _ => "ok"
-          if cmp != "ok" then cmp else
-          if result != "ok" then "ok" else
+        -- predicates on the implementation's own observations first (independent of the model)
+        let pred := if result != "ok" then "ok" else
           match preds u kind args pre post tol with
           | some (name, tag) => predfail name tag
           | none => "ok"
+        if pred != "ok" then pred else
+        let cls := resClass res
+        if cls != result then mismatch "result" cls result
+        else
+          match res with
+          | .ok s' => cmpObs (obsOf u s') post
+          | _ => "ok"
     | _, _, _, _, _ => badInput "parse"
   | _ => badInput "arity"
 
